@@ -388,6 +388,22 @@ fn e2e_case(c: Triple, s: Triple, id: u64) {
                         keep.push(x);
                     }
                 }
+                // more opens over the connection's life than there are ids: close some, open again -
+                // whatever comes back must still lie within the announced limit
+                for round in 0..4u64 {
+                    let nclose = 1 + ((id + round) % 2) as usize;
+                    for _ in 0..nclose.min(keep.len()) {
+                        let x = keep.remove(((id + round) as usize) % keep.len());
+                        let cid = x.channel_id();
+                        let r = x.close();
+                        gev(json!({"ev":"chanclosed","id":cid,"res": if r.is_ok() {"ok"} else {"err"}}));
+                    }
+                    for _ in 0..=nclose {
+                        if let Some(x) = chan_op(&mut conn, None) {
+                            keep.push(x);
+                        }
+                    }
+                }
             }
             // the frame limit: 3 full body frames plus one byte (capped at ~400 KB)
             if let Some(ch) = first.as_ref() {
